@@ -5,7 +5,7 @@ from enum import Enum, IntEnum, StrEnum, Flag, IntFlag
 from typing import Any
 
 import labtech
-from labtech.cache import BaseCache
+from labtech.cache import BaseCache, PickleCache
 
 
 class Color(Enum):
@@ -83,6 +83,28 @@ class Outer:
             OTHER = 'other'
 
 
+# non-Enum SUBCLASSES of the scalar types: `immutable_param_value` accepts their instances (isinstance(value,
+# ParamScalar)), so they are supported parameter values (C15); json.dumps writes them as their base scalar, which is
+# therefore what the cache key sees (C07) and what cached_tasks hands back (C09).  numpy.float64 / numpy.str_ are
+# further such subclasses (paramgen.SUB_KINDS).  Module level, so that pickled copies find them.
+class Celsius(float):
+    """a float with a unit attached"""
+
+
+class Label(str):
+    pass
+
+
+class Seed(int):
+    pass
+
+
+class DashCache(PickleCache):
+    """a third cache format sharing the storage: its KEY_PREFIX has characters outside [A-Za-z0-9_] (a hyphen, a space, a
+    non-ASCII letter) that LocalStorage accepts in a key ('.', '/' and '\\' are the ones it forbids)"""
+    KEY_PREFIX = 'pickle-v2 é__'
+
+
 class JsonCache(BaseCache):
     """a second cache format sharing the storage with PickleCache"""
     KEY_PREFIX = 'json__'
@@ -154,6 +176,23 @@ class AltT:
 
     def run(self):
         return 'alt'
+
+
+@labtech.task
+class Étude:
+    """a task type whose (legal Python) identifier has a non-ASCII letter: it is part of the cache key"""
+    p: Any
+
+    def run(self):
+        return 'etude'
+
+
+@labtech.task(cache=DashCache())
+class Archive:
+    p: Any
+
+    def run(self):
+        return 'archive'
 
 
 # --- C09: a task whose re-run can produce a result that fails to pickle part-way through the save
